@@ -169,27 +169,53 @@ def run_pass_kill(res, ast):
                             okv = v in ("Add", "Sub", "Mul", "Copy", "Inp")
                             res.check(okv, "PASS-KILL", f"{BC}|{fname}|{v}|insert", where(BC, node, fname),
                                       f"{fname}: Instr::{v} marks a cell dead although it does not overwrite it")
-    # record_branch_targets marks the target of every branch of both kinds
+    # record_branch_targets marks the target of every branch of both kinds: evaluated on two representative programs
     try:
-        import pm
+        import itereval
+        from rusteval import Env as _Env, ReturnEx as _Ret, Unanalysable as _Un, Reached as _Re
         rb = ast.fn(BC, "record_branch_targets")["node"]
-        okb = False
-        for l in walk_t(rb["body"], "ForLoop"):
-            for alt in ("Instr::BrNZ(_, __v_off) | Instr::BrZ(_, __v_off)", "Instr::BrZ(_, __v_off) | Instr::BrNZ(_, __v_off)"):
-                if pm.match_expr(l, "for (__v_i, &__v_inst) in self.insts.iter().enumerate() { if let " + alt +
-                                 " = __v_inst { self.is_target[__v_i.wrapping_add_signed(__v_off)] = true; } }"):
-                    okb = True
-                if pm.match_expr(l, "for (__v_i, __v_inst) in self.insts.iter().enumerate() { if let " + alt +
-                                 " = *__v_inst { self.is_target[__v_i.wrapping_add_signed(__v_off)] = true; } }"):
-                    okb = True
-                # the same walk written with an index
-                if pm.match_expr(l, "for __v_i in 0..self.insts.len() { if let " + alt +
-                                 " = self.insts[__v_i] { self.is_target[__v_i.wrapping_add_signed(__v_off)] = true; } }"):
-                    okb = True
-        sized = bool(pm.find_expr(rb["body"], "self.is_target.resize(self.insts.len() + 1, false)"))
-        res.check(okb and sized, "PASS-KILL", f"{BC}|record_branch_targets", where(BC, rb, "record_branch_targets"),
+
+        class RB(itereval.IterInterp):
+            def __init__(self, insts):
+                super().__init__()
+                self.insts, self.is_target = insts, []
+
+            def field(self, base, member, node):
+                if base == "self" and member == "insts":
+                    return self.insts
+                if base == "self" and member == "is_target":
+                    return self.is_target
+                return super().field(base, member, node)
+
+            def eval(self, e, env):
+                if e.get("t") == "PathExpr" and e["path"]["name"] == "self":
+                    return "self"
+                return super().eval(e, env)
+
+        I = lambda n, *f: itereval.Ctor("Instr::" + n, list(f))
+        progs = [([I("BrZ", 0, 3), I("Noop"), I("Mov", 1), I("BrNZ", 0, -2), I("Out", 0)], {3, 1}),
+                 ([I("Noop"), I("BrNZ", 5, 0), I("BrZ", 1, 1)], {1, 3}),
+                 ([I("Mov", 1), I("Out", 0)], set()),
+                 ([I("BrZ", 0, 1)], {1})]
+        bad_ = []
+        for insts, want in progs:
+            it = RB(insts)
+            try:
+                try:
+                    it.exec_block(rb["body"], _Env())
+                except _Ret:
+                    pass
+                got = {i_ for i_, v_ in enumerate(it.is_target) if v_ is True}
+                if len(it.is_target) != len(insts) + 1:
+                    bad_.append(f"is_target has {len(it.is_target)} entries for {len(insts)} instructions (one per instruction plus the end is needed)")
+                elif got != want:
+                    bad_.append(f"for {insts!r} the marked targets are {sorted(got)}, the branches jump to {sorted(want)}")
+            except (_Un, _Re, KeyError, TypeError, IndexError) as u_:
+                bad_.append(f"cannot be analysed (fail closed): {u_}")
+            res.evaluations += 1
+        res.check(not bad_, "PASS-KILL", f"{BC}|record_branch_targets", where(BC, rb, "record_branch_targets"),
                   "record_branch_targets must mark insts[i + off] for every BrZ and every BrNZ (one entry per instruction plus the end): "
-                  "an unmarked target lets a zeroing move be fused across a join point")
+                  "an unmarked target lets a zeroing move be fused across a join point; " + "; ".join(bad_[:2]))
     except Missing as m:
         res.missing("PASS-KILL", m)
     # translate: zeroing_move_detection needs record_branch_targets first
